@@ -17,7 +17,10 @@ EXTRACT_TARGETS = ['Extract/Ex_export.vo']
 RUNNER = 'export'
 LEVEL = 'proof'
 MANIFEST = {
-    'text': "Theorems (Coq, all block lists of all lengths): for every edge-consistent list of pieces the joined "
+    'text': "Theorems (Coq, all block lists of all lengths): stated on EVENTS - whenever the gradients of a channel are "
+            "timing valid and connect as add_block demands (input-level condition Connected, relative times only), the "
+            "export succeeds, is strictly increasing, equals the rendering of the active event at every time and is "
+            "zero where no event is active; proved via: for every edge-consistent list of pieces the joined "
             "corner list of Sequence.waveforms() evaluates, at every time inside a piece, to that piece (= the "
             "per-event rendering: trapezoid formula / interpolated corner list shifted by delay and block start) "
             "and to zero where no event is active; its times are spaced by at least eps (the code's own "
